@@ -85,8 +85,8 @@ TYPES = [
     T("aria", "crate::Aria192", "Aria192", ["aria", "192"], 24, 16),
     T("aria", "crate::Aria256", "Aria256", ["aria", "256"], 32, 16),
     T("belt-block", "crate::BeltBlock", "BeltBlock", ["belt"], 32, 16, debug=False),   # implements AlgorithmName only, no Debug
-    T("blowfish", "crate::Blowfish", "Blowfish<BE>", ["blowfish", "be"], 56, 8, heavy=True, accepted="|l| l >= 4 && l <= 56", ks_stub=BLOWFISH_KS, eq_slice=False),
-    T("blowfish", "crate::BlowfishLE", "Blowfish<LE>", ["blowfish", "le"], 56, 8, heavy=True, accepted="|l| l >= 4 && l <= 56", ks_stub=BLOWFISH_KS, eq_slice=False),
+    T("blowfish", "crate::Blowfish", "Blowfish<BE>", ["blowfish", "be"], 56, 8, heavy=False, accepted="|l| l >= 4 && l <= 56", ks_stub=BLOWFISH_KS, eq_slice=False),
+    T("blowfish", "crate::BlowfishLE", "Blowfish<LE>", ["blowfish", "le"], 56, 8, heavy=False, accepted="|l| l >= 4 && l <= 56", ks_stub=BLOWFISH_KS, eq_slice=False),
     T("camellia", "crate::Camellia128", "Camellia128", ["camellia", "128"], 16, 16),
     T("camellia", "crate::Camellia192", "Camellia192", ["camellia", "192"], 24, 16),
     T("camellia", "crate::Camellia256", "Camellia256", ["camellia", "256"], 32, 16),
@@ -149,6 +149,26 @@ ROUTE = {
              "pub fn rt_stub_s2(x: u128) -> u128 { rt_s2::call(x) }\n"
              "pub fn rt_stub_a(x: u128) -> u128 { rt_a::call(x) }\n",
              "(crate::utils::fo, rt_stub_fo), (crate::utils::fe, rt_stub_fe), (crate::utils::sl2, rt_stub_s2), (crate::utils::a, rt_stub_a)"),
+    # state-dependent leaves (Blowfish F over the instance's S-boxes, Twofish g over its key-dependent S-boxes): every harness
+    # that uses these stubs works on ONE state (all its instances are built from the same bytes), so the leaf is one fixed
+    # function of its data argument; the native replay runs the real function (kani::stub does not apply natively)
+    "blowfish": ("fn rt_no_rf(_x: u32) -> u32 { 0 }\n"
+                 "cuf1!(rt_rf, vuf_xcut_rt_rf, u32, u32, rt_no_rf);\n"
+                 "pub fn rt_stub_rf<T: byteorder::ByteOrder>(_b: &crate::Blowfish<T>, x: u32) -> u32 { rt_rf::call(x) }\n",
+                 "(crate::Blowfish::round_function, rt_stub_rf)"),
+    "twofish": ("fn rt_no_g(_x: u32) -> u32 { 0 }\n"
+                "cuf1!(rt_g, vuf_xcut_rt_g, u32, u32, rt_no_g);\n"
+                "pub fn rt_stub_g(_t: &crate::Twofish, x: u32) -> u32 { rt_g::call(x) }\n",
+                "(crate::Twofish::g_func, rt_stub_g)"),
+    "serpent": ("fn rt_pack(w: [u32; 4]) -> u128 { (w[0] as u128) | ((w[1] as u128) << 32) | ((w[2] as u128) << 64) | ((w[3] as u128) << 96) }\n"
+                "fn rt_unpack(v: u128) -> [u32; 4] { [v as u32, (v >> 32) as u32, (v >> 64) as u32, (v >> 96) as u32] }\n"
+                "fn rt_conc_s(i: usize, w: u128) -> u128 { rt_pack(refmodels::serpent::apply_s(i, rt_unpack(w))) }\n"
+                "fn rt_conc_si(i: usize, w: u128) -> u128 { rt_pack(refmodels::serpent::apply_s_inv(i, rt_unpack(w))) }\n"
+                "cuf2!(rt_s, vuf_xcut_rt_s, usize, u128, u128, rt_conc_s);\n"
+                "cuf2!(rt_si, vuf_xcut_rt_si, usize, u128, u128, rt_conc_si);\n"
+                "pub fn rt_stub_s(index: usize, w: [u32; 4]) -> [u32; 4] { rt_unpack(rt_s::call(index, rt_pack(w))) }\n"
+                "pub fn rt_stub_si(index: usize, w: [u32; 4]) -> [u32; 4] { rt_unpack(rt_si::call(index, rt_pack(w))) }\n",
+                "(crate::bitslice::apply_s, rt_stub_s), (crate::bitslice::apply_s_inv, rt_stub_si)"),
     "belt-block": ("use core::num::Wrapping;\n"
                    "cuf1!(rt_g5, vuf_xcut_rt_g5, u32, u32, refmodels::belt::g5);\n"
                    "cuf1!(rt_g13, vuf_xcut_rt_g13, u32, u32, refmodels::belt::g13);\n"
@@ -348,9 +368,13 @@ def emit(crate, rows):
         ks = (", stubs: [%s]" % stub_pair) if stub_pair else ""
         o.append('//@ harness name=%s_ctor_history prop=C15 tier=%s bits=%d %sdesc="%s: history new(k2) in a fresh process, new(k1), new(k2), new(k3), new(k1): both constructions from k2 give the same state and both from k1 do, for all keys k1, k2, k3 (no process-wide state written by construction changes a later construction; a one-entry cache needs the eviction by k3 to show)%s"\n'
                  % (n, "quick" if (stub_pair or not t["heavy_ks"]) else "thorough", 24 * kl, "stub=1 " if stub_pair else "", ty, "; key schedule replaced by a cheap key-dependent stub" if stub_pair else ""))
+        if crate == "blowfish":
+            # 4 x 256-word S-boxes: tracked per element (a process-wide cache of the schedule would otherwise put every
+            # copy loop into the array theory)
+            o[-1] = o[-1].replace(" desc=", " cbmc_args=--max-field-sensitivity-array-size;1100 desc=", 1)
         o.append("g_ctor_history!(%s_ctor_history, %s, %d, %s%s);\n" % (n, ty, kl, t["exempt"], ks))
         if set(t["dirs"]) == {"enc", "dec"}:
-            o.append('//@ harness name=%s_mixed prop=C15,C20 tier=%s bits=%d %sdesc="%s: on one arbitrary-state instance the history enc(x); dec(x); dec(y); enc(y) returns for dec(x) and enc(y) what a pristine instance with the same state returns (no memoisation across directions), instance bytes unchanged%s"\n' % (n, tier, 16 * bs + 64, rmeta, ty, rnote))
+            o.append('//@ harness name=%s_mixed prop=C15,C20 tier=thorough bits=%d %sdesc="%s: on one arbitrary-state instance the history enc(x); dec(x); dec(y); enc(y) returns for dec(x) and enc(y) what a pristine instance with the same state returns (no memoisation across directions), instance bytes unchanged%s"\n' % (n, 16 * bs + 64, rmeta, ty, rnote))
             if route_pairs:
                 # with an uninterpreted leaf the history is split in its two halves (quadratic consistency constraints)
                 o.pop()
@@ -361,20 +385,24 @@ def emit(crate, rows):
                 o.append("g_mixed!(%s_mixed, %s, %d, %s%s);\n" % (n, ty, bs, t["valid"], rstubs))
         for d in t["dirs"]:
             if t["frame"]:
-                o.append('//@ harness name=%s_frame_%s prop=C15,C20 tier=%s bits=%d %sdesc="%s: %s_block on an arbitrary valid state returns for every block (no panic / overflow / bounds failure); the history op(x); op(y); op(x) on one instance gives equal first and third results and leaves every byte of the instance unchanged%s"\n' % (n, d, tier, 16 * bs + 64, rmeta, ty, "encrypt" if d == "enc" else "decrypt", rnote))
+                o.append('//@ harness name=%s_frame2_%s prop=C15,C20 tier=%s bits=%d %s%sdesc="%s: %s_block twice with the same block on one arbitrary-valid-state instance returns (no panic / overflow / bounds failure), gives the same result both times and leaves every byte of the instance unchanged%s"\n' % (n, d, tier, 8 * bs + 64, rmeta, "quick=C20 " if d == t["dirs"][0] else "", ty, "encrypt" if d == "enc" else "decrypt", rnote))
+                o.append("g_frame2!(%s_frame2_%s, %s, %d, %s, %s%s);\n" % (n, d, ty, bs, t["valid"], d, rstubs))
+                o.append('//@ harness name=%s_frame_%s prop=C15,C20 tier=%s bits=%d %sdesc="%s: %s_block on an arbitrary valid state returns for every block (no panic / overflow / bounds failure); the history op(x); op(y); op(x) on one instance gives equal first and third results and leaves every byte of the instance unchanged%s"\n' % (n, d, "thorough", 16 * bs + 64, rmeta, ty, "encrypt" if d == "enc" else "decrypt", rnote))
                 o.append("g_frame1!(%s_frame_%s, %s, %d, %s, %s%s);\n" % (n, d, ty, bs, t["valid"], d, rstubs))
                 if route_pairs:
                     o.append('//@ harness name=%s_total_%s prop=C20 tier=%s bits=%d desc="%s: one %s_block call on an arbitrary valid state and block returns and leaves the instance unchanged; NOTHING abstracted (every overflow / bounds / shift / unwrap / debug assertion on the path is an obligation)"\n' % (n, d, tier, 8 * bs + 64, ty, "encrypt" if d == "enc" else "decrypt"))
                     o.append("g_total!(%s_total_%s, %s, %d, %s, %s);\n" % (n, d, ty, bs, t["valid"], d))
             if t["blocks"]:
-                o.append('//@ harness name=%s_blocks_%s prop=C04,C20 tier=%s bits=%d %sdesc="%s (%s): multi-block in place, multi-block b2b and single b2b calls for every n in 0..=%d equal per-block in-place calls; separate input unchanged; output blocks >= n untouched; arbitrary valid state%s"\n' % (n, d, tier, 8 * bs * t["nb"] + 72, rmeta, ty, d, t["nb"], " (non-linear leaf uninterpreted)" if route_pairs else ""))
+                o.append('//@ harness name=%s_b2b_%s prop=C04,C20 tier=%s bits=%d %sdesc="%s (%s): the single-block b2b call into an output buffer pre-filled with arbitrary bytes equals the in-place call on the same block; the separate input is unchanged; arbitrary valid state (two block computations: the quick form; for parallel width 1 the multi-block entry points are the cipher crate\'s loop over this call)%s"\n' % (n, d, tier, 16 * bs + 64, rmeta, ty, d, " (non-linear leaf uninterpreted)" if route_pairs else ""))
+                o.append("g_b2b1!(%s_b2b_%s, %s, %d, %s, %s%s);\n" % (n, d, ty, bs, t["valid"], d, rstubs))
+                o.append('//@ harness name=%s_blocks_%s prop=C04,C20 tier=%s bits=%d %sdesc="%s (%s): multi-block in place, multi-block b2b and single b2b calls for every n in 0..=%d equal per-block in-place calls; separate input unchanged; output blocks >= n untouched; arbitrary valid state%s"\n' % (n, d, "thorough", 8 * bs * t["nb"] + 72, rmeta, ty, d, t["nb"], " (non-linear leaf uninterpreted)" if route_pairs else ""))
                 if route_pairs:
                     o.pop()
                     parts = {"b2b": "multi-block b2b with n = %d equals the per-block in-place calls, separate input unchanged; n = 0 and mismatched lengths write nothing" % t["nb"],
                              "inplace": "multi-block in place with n = %d (and n = 0) equals the per-block in-place calls" % t["nb"],
                              "short": "n = %d: multi-block b2b and in place equal the per-block calls and leave blocks >= n untouched; single-block b2b equals the in-place call, input unchanged" % (t["nb"] - 1)}
                     for part, what in parts.items():
-                        o.append('//@ harness name=%s_blocks_%s_%s prop=C04,C20 tier=%s bits=%d %sdesc="%s (%s): %s; arbitrary valid state (non-linear leaf uninterpreted)"\n' % (n, d, part, tier, 8 * bs * t["nb"] + 72, rmeta, ty, d, what))
+                        o.append('//@ harness name=%s_blocks_%s_%s prop=C04,C20 tier=%s bits=%d %sdesc="%s (%s): %s; arbitrary valid state (non-linear leaf uninterpreted)"\n' % (n, d, part, "thorough", 8 * bs * t["nb"] + 72, rmeta, ty, d, what))
                         o.append("g_blocks_part!(%s_blocks_%s_%s, %s, %d, %d, %s, %s, %s%s);\n" % (n, d, part, ty, bs, t["nb"], t["valid"], d, part, rstubs))
                 else:
                     o.append("g_blocks1!(%s_blocks_%s, %s, %d, %d, %s, %s%s);\n" % (n, d, ty, bs, t["nb"], t["valid"], d, rstubs))
